@@ -193,6 +193,7 @@ func realLex(s string) (lr lexRun, panicked any, hung bool) {
 }
 
 var lexSeeds = []string{
+	"t:in(a, \"b c\")", "m:in(\"x y\", \"Connection Refused\", timed-out)", "p:in(\"/a b\", \"/c d\")",
 	"k:a or k:b | fields m", "k:a and k:b or t:c | fields m", "k:a or k:b and k:c | fields except m", "(k:a or k:b) | fields m", "not k:a or k:b|fields m",
 	"k:a-b c", "k:a*b c", "k:\"a\"'b' c", "k:a-b-c d and k:e", "t:a_b-c d",
 	`service:"a\"`, `k:'a\'`, `k:"\`, `"`, `'`, "`", `k:"a*`, `k:"a\*`, "k:`a", `k:"a\"b"`, `k:'it\'s'`, `k:"a\"" and k:"b\"`,
